@@ -27,7 +27,26 @@ pub enum TimeVal {
   /// a strictly rendered instant that WOULD be acceptable (future when `future`, else past: now -/+ delta seconds)
   /// spoilt into something that is not RFC 3339 (suffix, prefix, missing or malformed component - see NEAR_MISS)
   NearMiss(bool, u64, u8),
+  /// a literal, strictly written RFC 3339 timestamp at the edge of the calendar (index into EXTREMES): years 0000 and
+  /// 9999 with offsets that push the UTC instant out of the four-digit range
+  Extreme(u8),
 }
+
+/// (text, lies in the future)
+pub const EXTREMES: [(&str, bool); 12] = [
+  ("9999-12-31T23:59:59Z", true),
+  ("9999-12-31T23:59:59-01:00", true),
+  ("9999-12-31T12:00:00-12:00", true),
+  ("9999-12-31T23:59:59.999999999-23:59", true),
+  ("9999-12-31T00:00:00+23:59", true),
+  ("9999-01-01T00:00:00.5+00:00", true),
+  ("0000-01-01T00:00:00Z", false),
+  ("0000-01-01T00:00:00+23:59", false),
+  ("0000-01-01T00:00:00.000000001+12:00", false),
+  ("0001-01-01T00:00:00+01:00", false),
+  ("0000-12-31T23:59:59-23:59", false),
+  ("0000-02-29T12:00:00Z", false),
+];
 
 /// ways of spoiling a valid `YYYY-MM-DDThh:mm:ss[.f](Z|+hh:mm)` string; every result is definitely not RFC 3339
 pub const NEAR_MISS: usize = 21;
@@ -72,6 +91,7 @@ impl TimeVal {
       TimeVal::Abs(..) => "absolute",
       TimeVal::NotATimestamp(_) => "not-a-timestamp",
       TimeVal::NearMiss(..) => "not-a-timestamp",
+      TimeVal::Extreme(i) => if EXTREMES[*i as usize % EXTREMES.len()].1 { "future" } else { "past" },
     }
   }
   /// resolve an absolute instant into Past/Future relative to `now` (None inside the margin)
@@ -103,6 +123,7 @@ impl TimeVal {
         (Some(Value::String(spoil(&tgen::render(at, 0, &r), *kind))), true)
       }
       TimeVal::NotATimestamp(v) => (Some(v.clone()), true),
+      TimeVal::Extreme(i) => (Some(Value::String(EXTREMES[*i as usize % EXTREMES.len()].0.to_string())), true),
     }
   }
 }
@@ -155,6 +176,7 @@ fn want_exp(v: &TimeVal, strict: bool) -> Want {
     }
     TimeVal::NotATimestamp(_) | TimeVal::NearMiss(..) => Want::Reject,
     TimeVal::Abs(..) => Want::DontCare,
+    TimeVal::Extreme(i) => if EXTREMES[*i as usize % EXTREMES.len()].1 { Want::Accept } else { Want::Reject },
   }
 }
 fn want_nbf(v: &TimeVal, strict: bool) -> Want {
@@ -171,6 +193,7 @@ fn want_nbf(v: &TimeVal, strict: bool) -> Want {
     }
     TimeVal::NotATimestamp(_) | TimeVal::NearMiss(..) => Want::Reject,
     TimeVal::Abs(..) => Want::DontCare,
+    TimeVal::Extreme(i) => if EXTREMES[*i as usize % EXTREMES.len()].1 { Want::Reject } else { Want::Accept },
   }
 }
 
@@ -234,6 +257,7 @@ impl Sub for DefaultTimeRules {
           cl.tag(if *d > 3_000_000_000 { "distance:far(>95y)" } else if *d > 86_400 * 366 { "distance:years" } else if *d > 86_400 { "distance:days" } else { "distance:<1d" });
         }
         TimeVal::NearMiss(_, _, k) => cl.tag(format!("near-miss:{}", *k as usize % NEAR_MISS)),
+        TimeVal::Extreme(_) => cl.tag("calendar-extreme"),
         TimeVal::NotATimestamp(j) => cl.tag(format!("type:{}", match j { Value::Number(_) => "number", Value::Bool(_) => "bool", Value::Array(_) => "array", Value::Object(_) => "object", Value::String(s) if s.is_empty() => "empty-string", Value::String(_) => "text", Value::Null => "null" })),
         _ => {}
       }
@@ -339,6 +363,14 @@ fn not_a_timestamp() -> BoxedStrategy<Value> {
     1 => Just(json!(["2999-01-01T00:00:00Z"])),
     1 => Just(json!({})),
     1 => Just(json!({"exp": "2999-01-01T00:00:00Z"})),
+    // the shapes a date-time takes in serde's native (non-string) representations
+    1 => Just(json!([2999, 1, 0, 0, 0, 0, 0, 0, 0])),
+    1 => Just(json!([1999, 1, 0, 0, 0, 0, 0, 0, 0])),
+    1 => Just(json!([2999, 1, 0, 0, 0, 0])),
+    1 => Just(json!([2999, 1])),
+    1 => Just(json!({"secs_since_epoch": 32503680000u64, "nanos_since_epoch": 0})),
+    1 => Just(json!("32503680000")),
+    1 => Just(json!(32503680000.5)),
     3 => Just(json!("")),
     // text that does not begin with a digit or a sign
     3 => ("[A-Za-z _:TZ.]{1,12}").prop_map(Value::String),
@@ -378,7 +410,7 @@ fn near_miss(future: bool) -> BoxedStrategy<TimeVal> {
 
 /// `for_exp`: values for exp (near-misses built on a future instant) or for nbf (on a past instant)
 fn time_val(for_exp: bool) -> BoxedStrategy<TimeVal> {
-  prop_oneof![2 => Just(TimeVal::Absent), 1 => Just(TimeVal::Null), 6 => past(), 6 => future(), 2 => absolute(), 4 => not_a_timestamp().prop_map(TimeVal::NotATimestamp), 3 => near_miss(for_exp)].boxed()
+  prop_oneof![2 => Just(TimeVal::Absent), 1 => Just(TimeVal::Null), 6 => past(), 6 => future(), 2 => absolute(), 4 => not_a_timestamp().prop_map(TimeVal::NotATimestamp), 3 => near_miss(for_exp), 1 => (0u8..EXTREMES.len() as u8).prop_map(TimeVal::Extreme)].boxed()
 }
 
 /// other members: plain ones, and decoys - nested objects / arrays / strings that repeat the registered names and carry
@@ -430,6 +462,14 @@ fn grid(pid: &'static str, proto: Proto) -> Vec<TimeCase> {
       }
     }
   }
+  // every calendar extreme, deterministically
+  for i in 0..EXTREMES.len() as u8 {
+    if pid == "C11" {
+      out.push(mk(TimeVal::Extreme(i), TimeVal::Absent));
+    } else {
+      out.push(mk(TimeVal::Absent, TimeVal::Extreme(i)));
+    }
+  }
   // the 25 (exp class x nbf class) combinations with fixed representatives
   if pid == "C12" {
     let reps = |past: bool| -> Vec<TimeVal> {
@@ -459,6 +499,45 @@ pub struct CrossingCase {
   pub lead_ms: u32,
   /// fractional digits written (3..=9)
   pub digits: u8,
+  /// what this thread's parsers have been through before the parser under test is created: 0 nothing; 1 an authentic
+  /// token whose payload is not JSON; 2 authentic tokens with a non-object payload and with ill-typed exp / nbf;
+  /// 3 an expired and a not-yet-valid token; 4 unauthenticated and garbage tokens; 5 all of these
+  #[serde(default)]
+  pub before: u8,
+}
+
+/// Parses that fail (or succeed) for their own reasons, on the calling thread, through fresh default and generic parsers.
+pub fn thread_history(p: Proto, lk: &LibKeys, kind: u8) {
+  let nonce = &[9u8; 32][..if p == Proto::V2L { 24 } else { 32 }];
+  let mut payloads: Vec<String> = vec![];
+  if kind == 1 || kind >= 5 {
+    payloads.push("this is not json".into());
+    payloads.push("{\"exp\":".into());
+  }
+  if kind == 2 || kind >= 5 {
+    payloads.extend(["[1,2]", "\"text\"", "{\"exp\":12345}", "{\"nbf\":true,\"exp\":[]}", "{\"exp\":\"never\"}"].map(String::from));
+  }
+  if kind == 3 || kind >= 5 {
+    payloads.extend(["{\"exp\":\"1999-01-01T00:00:00Z\"}", "{\"nbf\":\"2999-01-01T00:00:00Z\"}"].map(String::from));
+  }
+  for pl in &payloads {
+    if let Ok(t) = core_build(lk, nonce, pl, None, None) {
+      let _ = new_parser(p, Layer::Prelude).parse(&t, lk);
+      let _ = new_parser(p, Layer::Generic).parse(&t, lk);
+    }
+  }
+  if kind == 4 || kind >= 5 {
+    if let Ok(t) = core_build(lk, nonce, "{\"exp\":\"2999-01-01T00:00:00Z\"}", None, None) {
+      let mut broken = t.clone();
+      broken.pop();
+      for bad in [broken.as_str(), "v4.local.AAAA", "", "garbage"] {
+        let _ = new_parser(p, Layer::Prelude).parse(bad, lk);
+      }
+      let mut with_footer = new_parser(p, Layer::Prelude);
+      with_footer.footer("a footer the token does not carry");
+      let _ = with_footer.parse(&t, lk);
+    }
+  }
 }
 
 /// One parser object parses the same token before and after the clock has passed the claim's instant.
@@ -487,6 +566,10 @@ impl Sub for ClockCrossing {
     };
     cl.tag(p.label());
     cl.nontrivial(true);
+    if c.before > 0 {
+      thread_history(p, &lk, c.before);
+      cl.tag(format!("thread-history:{}", c.before.min(5)));
+    }
     let mut parser = new_parser(p, Layer::Prelude);
     let first = parser.parse(&token, &lk); // inside the margin: not judged
     cl.tag(format!("first-parse:{}", if first.is_ok() { "accepted" } else { "rejected" }));
@@ -524,7 +607,11 @@ impl Sub for ClockCrossing {
 pub fn crossing_cases() -> Vec<CrossingCase> {
   let mut v = vec![];
   for (i, proto) in [Proto::V4L, Proto::V2P, Proto::V3L, Proto::V1L].into_iter().enumerate() {
-    v.push(CrossingCase { proto, lead_ms: 1100 + 150 * i as u32, digits: 3 + 2 * i as u8 });
+    v.push(CrossingCase { proto, lead_ms: 1100 + 150 * i as u32, digits: 3 + 2 * i as u8, before: 0 });
+  }
+  // the same with parsers of this thread having failed in various ways beforehand
+  for (i, proto) in [Proto::V4L, Proto::V4P, Proto::V2L, Proto::V3L].into_iter().enumerate() {
+    v.push(CrossingCase { proto, lead_ms: 1500 + 100 * i as u32, digits: 9 - i as u8, before: [1u8, 2, 5, 4][i] });
   }
   v
 }
@@ -562,7 +649,6 @@ pub fn run_for(ctx: &Ctx, pid: &'static str, subs: &[DefaultTimeRules]) {
       Proto::V1P => ctx.n(1000, 10_000),
       _ => ctx.n(300, 3_000),
     };
-    let n = if child { (n / 10).max(100) } else { n };
     jobs.push(Box::new(move || ctx.prop(s, case(pid, s.proto), n)));
   }
   run_jobs(jobs);
